@@ -736,8 +736,37 @@ func (c *ClientConn) sendRequest(ctx context.Context, req message.Request) (mess
 	case <-c.ctx.Done():
 		return nil, errors.ErrConnectionClosed
 	case reply := <-reply:
+		if !isResponseTo(req, reply) {
+			// the callers assert the response type: a response of another kind that bears this request's id
+			// (a broker that mixes up request ids) must not make them panic
+			return nil, errors.Errorf("unexpected %T in response to %T: %w", reply, req, errors.ErrMalformedMessage)
+		}
 		return reply, nil
 	}
+}
+
+// isResponseTo reports whether resp is of the message type that answers req.
+func isResponseTo(req, resp message.Request) bool {
+	ok := true
+	switch req.(type) {
+	case *message.Ping:
+		_, ok = resp.(*message.Pong)
+	case *message.UpstreamOpenRequest:
+		_, ok = resp.(*message.UpstreamOpenResponse)
+	case *message.UpstreamResumeRequest:
+		_, ok = resp.(*message.UpstreamResumeResponse)
+	case *message.UpstreamCloseRequest:
+		_, ok = resp.(*message.UpstreamCloseResponse)
+	case *message.UpstreamMetadata:
+		_, ok = resp.(*message.UpstreamMetadataAck)
+	case *message.DownstreamOpenRequest:
+		_, ok = resp.(*message.DownstreamOpenResponse)
+	case *message.DownstreamResumeRequest:
+		_, ok = resp.(*message.DownstreamResumeResponse)
+	case *message.DownstreamCloseRequest:
+		_, ok = resp.(*message.DownstreamCloseResponse)
+	}
+	return ok
 }
 
 func (c *ClientConn) readRequestLoop() {
